@@ -341,7 +341,37 @@ def lib_det():
     }
 
 
-LIBS = {"core": lib_core, "ver": lib_ver, "shape": lib_shape, "plug": lib_plug, "det": lib_det}
+def lib_wac():
+    """C04: packages whose import/export names mix plain names, interface paths with and without
+    versions, and ambiguous / unambiguous last segments (see lib/universe_wac.py for the programs)"""
+    Ii = inst(x=fA)
+    Ik = inst(y=fB)
+    return {
+        "name": "wac",
+        "pkgs": {
+            # provider: `.i` and `.k` are unambiguous last segments, `.j` is ambiguous
+            "wp": {"name": "test:prov", "version": None, "imports": [],
+                   "exports": [("f", fA), ("ns:p/i", Ii), ("ns:p/k@1.0.0", Ik), ("ns:q/j", Ii), ("ns:r/j", Ik), ("g", fB), ("h", Ii)]},
+            # an import named like a plain export of the provider next to a path ending in `/i`
+            "wt": {"name": "test:tgt", "version": None, "imports": [("h", Ii), ("ns:p/i", Ii)], "exports": [("run", fA)]},
+            "wc": {"name": "test:cons", "version": None,
+                   "imports": [("f", fA), ("ns:p/i", Ii), ("ns:p/k@1.0.0", Ik)], "exports": [("run", fA), ("ns:p/out", Ii)]},
+            # two imports end in `/i`
+            "wa": {"name": "test:amb", "version": None,
+                   "imports": [("ns:p/i", Ii), ("ns:q/i", Ii), ("g", fB)], "exports": [("run", fA)]},
+            "wm": {"name": "test:mid", "version": None,
+                   "imports": [("ns:p/i", Ii)], "exports": [("ns:p/k@1.0.0", Ik), ("f", fA)]},
+        },
+        "kinds": {"fA": fA, "fB": fB, "Ii": Ii, "Ik": Ik},
+        "import_names": ["f", "i", "k", "ns:p/i", "my-i", "bad name"],
+        "export_names": ["run", "r2", "f", "g", "h", "i", "k", "ns:p/i", "ns:p/k@1.0.0", "ns:q/j", "ns:r/j", "ns:p/out", "bad name"],
+        "def_names": [],
+        "valid_names": ["f", "i", "k", "ns:p/i", "my-i", "run", "r2", "g", "h", "ns:p/k@1.0.0", "ns:q/j", "ns:r/j", "ns:p/out"],
+        "deftypes": {},
+    }
+
+
+LIBS = {"core": lib_core, "ver": lib_ver, "shape": lib_shape, "plug": lib_plug, "det": lib_det, "wac": lib_wac}
 
 
 def emit(lib):
